@@ -1,4 +1,6 @@
 import Soa.Model.Cap
+import Soa.Model.Pinned
+import Soa.Extracted.Bodies
 /-!
 # C12 — capacity contract
 
@@ -183,5 +185,14 @@ def two : St := (St.new ['b', 's'] 0).push
 example : two.caps = [('b', 8), ('s', 4)] ∧ two.capacity = 4 := by decide
 example : two.Inv := by intro p hp; simp [two, St.new, St.push, St.map, leafExact, leafPush, leafReserve, growAmortized, minNonZero] at hp; rcases hp with rfl | rfl <;> decide
 example : (St.pushes 3 two).caps = two.caps ∧ (St.pushes 4 two).caps ≠ two.caps := by decide
+
+/-- **text pin**: the generated functions this property's hand-written model describes have, in
+    /repo today, exactly the text the model was written from (`Soa/Model/Pinned.lean`) -/
+theorem bodies_pinned :
+    Soa.Extracted.bodies.filter (fun r => Soa.Model.scopeOf r == "C12") =
+    Soa.Model.pinned.filter (fun r => Soa.Model.scopeOf r == "C12") := by decide +kernel
+
+theorem bodies_pinned_nonempty :
+    (Soa.Model.pinned.filter (fun r => Soa.Model.scopeOf r == "C12")).length ≥ 4 := by decide +kernel
 
 end Soa.C12
